@@ -97,11 +97,11 @@ import os as _os, re as _re
 _HELPERS = _re.findall(r"'(__\w+)'", _re.search(r'HELPERS = \[(.*?)\]', open(_os.path.join(_os.path.dirname(_os.path.dirname(_os.path.abspath(__file__))), 'layerI', 'rs2v.py')).read(), _re.S).group(1))
 for _k in ('C01', 'C02', 'C10', 'C16'): LAYER_I[_k] = ('H', list(_HELPERS))
 LAYER_I['C17'] = ('N', ['bid128_nextup', 'bid128_nextdown'])
-LAYER_I['C08'] = ('R,RP', ['bid128_round_integral_zero', 'bid128_round_integral_negative', 'bid128_round_integral_positive', 'bid128_round_integral_nearest_even', 'bid128_round_integral_nearest_away'])
+LAYER_I['C08'] = ('R', ['bid128_round_integral_zero', 'bid128_round_integral_negative', 'bid128_round_integral_positive', 'bid128_round_integral_nearest_even', 'bid128_round_integral_nearest_away'])
 for _k, _v in LAYER_I.items(): PROPS[_k]['layerI'] = _v
 # partial theorems (a stated sub-domain only) are obligations of the thorough tier
 PROPS['C17']['layerI_thorough'] = ('NP', ['bid128_nextafter', 'bid128_nexttoward'])
 PROPS['C06']['layerI_thorough'] = ('J', ['bid128_to_int32_rnint', 'bid128_to_int32_rninta'])     # complete theorems, 3-4 min each: thorough tier
 PROPS['C16']['layerI_thorough'] = ('M', ['bid128_minnum', 'bid128_maxnum', 'bid128_minnum_mag', 'bid128_maxnum_mag'])   # complete theorems, 12 CPU-minutes
-PROPS['C08']['layerI_thorough'] = ('RP', ['bid128_round_integral_exact', 'bid128_nearbyint'])   # partial: special / zero / exponent >= 0 / exponent <= -35 operands
-PARTIAL_LAYER_I = {'bid128_nextafter', 'bid128_nexttoward', 'bid128_round_integral_exact', 'bid128_nearbyint'}
+PROPS['C08']['layerI_thorough'] = ('RN,RP', ['bid128_nearbyint', 'bid128_round_integral_exact'])   # nearbyint complete (6 min); exact partial: special / zero / exponent >= 0 / exponent <= -35 operands
+PARTIAL_LAYER_I = {'bid128_nextafter', 'bid128_nexttoward', 'bid128_round_integral_exact'}
